@@ -338,3 +338,27 @@ PROPS["C17"] = dict(
     assumptions=COMMON_ASSUME[:1] + ["Boost.Serialization 1.74 archives (Cereal is not installed)", "an array_ref is archived as one flat block and is therefore loaded back into an array_ref only; all other view layouts interchange",
                                      "array<T,0> loading targets are value-constructed because its default constructor does not compile with assertions enabled"],
 )
+
+_MPI_INC = ["-I/usr/lib/x86_64-linux-gnu/openmpi/include", "-I/usr/lib/x86_64-linux-gnu/openmpi/include/openmpi"]
+_MPI_LIB = ["-L/usr/lib/x86_64-linux-gnu/openmpi/lib", "-lmpi"]
+PROPS["C18"] = dict(
+    targets=[dict(name="C18i", src="vp/props/C18.cpp", defs=["VP_C18_T=0"], flags=_MPI_INC, libs=_MPI_LIB, maxlen=52),
+             dict(name="C18d", src="vp/props/C18.cpp", defs=["VP_C18_T=1"], flags=_MPI_INC, libs=_MPI_LIB, maxlen=52)],
+    quick=dict(cases=1500, floor=12000),
+    thorough=dict(cases=40000, floor=300000, fuzz=dict(time=240)),
+    level="exploration",
+    level_text=("Single-process differential testing of the MPI adaptor against the view model of C01: a root array / static_array / array_ref (const or not, D 1..4) is turned into a view by a generated "
+                "sequence of C01's view-forming operations; the (buffer, count, datatype) triple obtained through each front end (message(elements()), message{base, layout, dt}, skeleton(layout, dt), "
+                "skeleton<T>(layout), skeleton(elements().layout(), dt), create_subarray, message(base, skeleton&&), data(iterator) for unit-stride 1-D views) is handed to the real MPI_Pack: the packed "
+                "bytes must be exactly the model's elements in canonical order (root cells carry their own position, so an element outside the view is visible). The same message is then transferred, by "
+                "MPI_Pack+MPI_Unpack or MPI_Sendrecv on MPI_COMM_SELF, to or from a partner view of the same element count but another rank and layout (contiguous, transposed / rotated storage, padded "
+                "block, strided, array_ref): the k-th element must arrive at the k-th element and every other cell of the receiving parent storage must be unchanged. All MPI datatype calls are interposed "
+                "(PMPI): a datatype must be committed before MPI sees it in a buffer description, must not be used or freed after being freed, and every created datatype is freed when the message dies. "
+                "Element types int and double."),
+    technique="model-based differential testing of MPI datatypes through real MPI_Pack/Unpack/Sendrecv on generated views, PMPI datatype-lifecycle ledger (rapidcheck + libFuzzer)",
+    rule=("case = root kind x D x extents x view-forming operation sequence x front end x partner (rank, extents, layout, front end) x direction x transport; non-trivial = the view has >= 2 elements and "
+          "is not a contiguous 1-D range; distinct = hash of decoded case text"),
+    assumptions=COMMON_ASSUME[:1] + ["Open MPI 4.1 singleton (no mpirun), MPI_COMM_SELF; two-rank communication is not exercised: Pack/Unpack and self-Sendrecv interpret the same (buffer, count, datatype) triple",
+                                     "views with zero elements are skipped (no message to check); data(iterator) is exercised for unit-stride 1-D views only: its datatype carries no stride extent and the repository's own mpi.cpp pins that behaviour",
+                                     "MPI element types int and double (float is mapped too and differs only in the predefined datatype)"],
+)
